@@ -108,7 +108,18 @@ func c21text(tp *simkit.Tape, k c21stmt, m string, allowNumbers bool) (string, s
 		deco = "backtick-after-keyword"
 	}
 	lead := ""
-	switch tp.Choose(10) {
+	switch tp.Choose(13) {
+	case 10:
+		// a comment whose first word reads like another statement kind
+		w := []string{"select", "show", "set", "use", "begin", "SELECT"}[tp.Choose(6)]
+		lead = []string{"# " + w + " the rows first\n", "#" + w + "\n", "-- " + w + " 1\n", "/* " + w + " */ ", "/*" + w + "*/"}[tp.Choose(5)]
+		deco += "+lead-comment-naming-a-read"
+	case 11:
+		// an executable comment that is empty: what follows is the statement
+		lead = []string{"/*!*/ ", "/*! */", "/*!50000 */ ", "/*!40101*/"}[tp.Choose(4)]
+		deco += "+lead-empty-executable-comment"
+	case 12:
+		lead, deco = "/**/", deco+"+lead-empty-comment"
 	case 1:
 		lead, deco = " ", deco+"+lead-space"
 	case 2:
